@@ -3,6 +3,7 @@
 package main
 
 import (
+	"bytes"
 	"context"
 	"encoding/json"
 	"fmt"
@@ -14,6 +15,7 @@ import (
 	"strings"
 	"sync"
 	"time"
+	"unsafe"
 
 	"package-operator.run/internal/packages"
 )
@@ -23,6 +25,11 @@ import (
 //
 //	{"op":"req","caller":i,"image":"a"}            caller i calls Pull("a") in a new goroutine
 //	{"op":"done","image":"a","result":"ok"|"err"}  the oldest running scripted pull of "a" returns
+//	{"op":"overlap","image":"a","result":..,"caller":i}
+//	    as done, but the broadcast of handleResponse is stalled on an extra unbuffered receiver
+//	    (put at the head of the entry through the export shim); while it is stalled caller i calls
+//	    Pull("a") and the harness waits until that goroutine is parked too (on the mutex, or in its
+//	    channel receive if it could register); only then the stall is released.
 //
 // A step is over when the receiver count / entry (read through the accessor under
 // inFlightLock) has changed as the step requires and every goroutine created by the
@@ -63,7 +70,8 @@ type rmObs struct {
 	Drain   []rmStep    `json:"drain"`   // done steps appended by the harness to complete running pulls
 	Pending []rmPending `json:"pending"` // per image: callers whose Pull never returned
 	Alias   [][2]int    `json:"alias"`   // (request step + 1, request step + 1); 0 = the pull function's original
-	Flags   []string    `json:"flags"`   // linearisation problems: timeout@k, nopull@k, notregistered@k, entryleft@k
+	Flags   []string    `json:"flags"`   // linearisation problems: timeout@k, nopull@k, notregistered@k, entryleft@k, nostall@k
+	Overlap []string    `json:"overlap"` // per overlap step: what the overlapping Pull did while the broadcast was stalled
 }
 
 type rmPull struct {
@@ -113,16 +121,57 @@ func goroutineStates() map[int]string {
 }
 
 // quiescent: every goroutine born during this scenario is parked in a channel receive.
-func (h *rmHarness) quiescent() bool {
+func (h *rmHarness) quiescent() bool { return h.parked("chan receive") }
+
+// parked: every goroutine born during this scenario is blocked in one of the given states.
+func (h *rmHarness) parked(allowed ...string) bool {
 	for id, st := range goroutineStates() {
 		if h.base[id] {
 			continue
 		}
-		if !strings.HasPrefix(st, "chan receive") {
+		ok := false
+		for _, a := range allowed {
+			ok = ok || strings.HasPrefix(st, a)
+		}
+		if !ok {
 			return false
 		}
 	}
 	return true
+}
+
+// waitParked polls until parked(allowed...) holds; false on timeout.
+func (h *rmHarness) waitParked(allowed ...string) bool {
+	deadline := time.Now().Add(rmStepTimeout)
+	for i := 0; ; i++ {
+		if h.parked(allowed...) {
+			return true
+		}
+		if time.Now().After(deadline) {
+			return false
+		}
+		if i < 20 {
+			runtime.Gosched()
+		} else {
+			time.Sleep(20 * time.Microsecond)
+		}
+	}
+}
+
+func (h *rmHarness) countState(prefixes ...string) int {
+	n := 0
+	for id, st := range goroutineStates() {
+		if h.base[id] {
+			continue
+		}
+		for _, a := range prefixes {
+			if strings.HasPrefix(st, a) {
+				n++
+				break
+			}
+		}
+	}
+	return n
 }
 
 const rmStepTimeout = 2 * time.Second
@@ -147,12 +196,23 @@ func (h *rmHarness) waitFor(cond func() bool) (ok, timedOut bool) {
 	}
 }
 
+// pristineFiles is what every scripted pull returns (plus "id"). It contains what
+// io.ReadAll produces for package files: slices with spare capacity, and zero-length
+// slices with spare capacity for empty files.
+func pristineFiles() map[string][]byte {
+	return map[string][]byte{
+		"data":  []byte("Data"),
+		"gone":  []byte("x"),
+		"empty": make([]byte, 0, 64),
+		"spare": append(make([]byte, 0, 64), "Spare"...),
+		"nil":   nil,
+	}
+}
+
 func pristine(image string, n int) *packages.RawPackage {
-	return &packages.RawPackage{Files: packages.Files{
-		"data": []byte("Data"),
-		"gone": []byte("x"),
-		"id":   []byte(fmt.Sprintf("%s#%d", image, n)),
-	}}
+	f := packages.Files(pristineFiles())
+	f["id"] = []byte(fmt.Sprintf("%s#%d", image, n))
+	return &packages.RawPackage{Files: f}
 }
 
 // mutate changes the caller's package in every way a Files map can be changed.
@@ -160,8 +220,45 @@ func mutate(pkg *packages.RawPackage, step int) {
 	if b, ok := pkg.Files["data"]; ok && len(b) > 0 {
 		b[0] = byte(step + 1) // in place: visible through a shallow copy of the map
 	}
+	for key, b := range pkg.Files {
+		if key == "id" {
+			continue
+		}
+		// append in place: lands in the spare capacity of the backing array if there is any
+		pkg.Files[key] = append(b, byte(step+1), 0xEE, byte(step+1))
+	}
 	pkg.Files[fmt.Sprintf("mut-%d", step)] = []byte{1}
 	delete(pkg.Files, "gone")
+}
+
+// expectAfterMutate is the content a private copy must have after mutate(step).
+func expectAfterMutate(key string, step int) []byte {
+	b := append([]byte{}, pristineFiles()[key]...)
+	if key == "data" {
+		b[0] = byte(step + 1)
+	}
+	return append(b, byte(step+1), 0xEE, byte(step+1))
+}
+
+// backing returns the address of the backing array of b (nil when cap is 0: all
+// zero-size allocations share one address).
+func backing(b []byte) *byte {
+	if cap(b) == 0 {
+		return nil
+	}
+	return unsafe.SliceData(b[:cap(b)])
+}
+
+// foreignByte finds, in the whole backing array of b, a byte written by another caller's
+// mutate (step+1 markers); 0 if none.
+func foreignByte(b []byte, own int) int {
+	full := b[:cap(b)]
+	for i := 0; i+2 < len(full); i++ {
+		if full[i+1] == 0xEE && full[i] == full[i+2] && full[i] != 0 && int(full[i]) != own {
+			return int(full[i])
+		}
+	}
+	return 0
 }
 
 func pullNoOf(s string) int {
@@ -208,7 +305,7 @@ func init() {
 			}
 			return rec.orig, nil
 		})
-		obs := rmObs{Events: [][]rmEv{}, Counts: []int{}, Drain: []rmStep{}, Pending: []rmPending{}, Alias: [][2]int{}, Flags: []string{}}
+		obs := rmObs{Events: [][]rmEv{}, Counts: []int{}, Drain: []rmStep{}, Pending: []rmPending{}, Alias: [][2]int{}, Flags: []string{}, Overlap: []string{}}
 		count := func(image string) int {
 			n, present := rm.VerifReceivers(image)
 			if !present {
@@ -233,8 +330,20 @@ func init() {
 			obs.Events = append(obs.Events, evs)
 			obs.Counts = append(obs.Counts, count(image))
 		}
+		var spawnReq func(k int, st rmStep)
 		doReq := func(k int, st rmStep) {
 			before := count(st.Image)
+			spawnReq(k, st)
+			// the receiver is registered when the count read under inFlightLock went up
+			ok, to := h.waitFor(func() bool { return count(st.Image) > before })
+			if to {
+				obs.Flags = append(obs.Flags, fmt.Sprintf("timeout@%d", k))
+			} else if !ok {
+				obs.Flags = append(obs.Flags, fmt.Sprintf("notregistered@%d", k))
+			}
+			endStep(st.Image)
+		}
+		spawnReq = func(k int, st rmStep) {
 			req := &rmReq{step: k, caller: st.Caller, image: st.Image}
 			h.mu.Lock()
 			h.reqs = append(h.reqs, req)
@@ -262,14 +371,6 @@ func init() {
 				h.cur = append(h.cur, ev)
 				h.mu.Unlock()
 			}()
-			// the receiver is registered when the count read under inFlightLock went up
-			ok, to := h.waitFor(func() bool { return count(st.Image) > before })
-			if to {
-				obs.Flags = append(obs.Flags, fmt.Sprintf("timeout@%d", k))
-			} else if !ok {
-				obs.Flags = append(obs.Flags, fmt.Sprintf("notregistered@%d", k))
-			}
-			endStep(st.Image)
 		}
 		doDone := func(k int, st rmStep) {
 			h.mu.Lock()
@@ -297,6 +398,65 @@ func init() {
 			}
 			endStep(st.Image)
 		}
+		doOverlap := func(k int, st rmStep) {
+			release, ok := rm.VerifStallBroadcast(st.Image)
+			if !ok { // no entry to stall on: run the two operations one after the other
+				obs.Flags = append(obs.Flags, fmt.Sprintf("nostall@%d", k))
+				obs.Overlap = append(obs.Overlap, "nostall")
+				doDone(k, st)
+				// merge the two halves into one step of the observation
+				evs := obs.Events[len(obs.Events)-1]
+				obs.Events, obs.Counts = obs.Events[:len(obs.Events)-1], obs.Counts[:len(obs.Counts)-1]
+				h.mu.Lock()
+				h.cur = append(evs, h.cur...)
+				h.mu.Unlock()
+				doReq(k, st)
+				return
+			}
+			h.mu.Lock()
+			var rec *rmPull
+			if l := h.running[st.Image]; len(l) > 0 {
+				rec, h.running[st.Image] = l[0], l[1:]
+			}
+			h.mu.Unlock()
+			if rec == nil {
+				obs.Flags = append(obs.Flags, fmt.Sprintf("nopull@%d", k))
+				obs.Overlap = append(obs.Overlap, "nopull")
+				release(0)
+				endStep(st.Image)
+				return
+			}
+			res := st.Result
+			if res != "err" {
+				res = "ok"
+			}
+			rec.gate <- res
+			// 1. the broadcast is stalled on the first (unbuffered) send
+			stalled := h.waitParked("chan receive", "chan send") && h.countState("chan send") == 1
+			if !stalled {
+				obs.Flags = append(obs.Flags, fmt.Sprintf("nostall-reached@%d", k))
+			}
+			// 2. overlapping request: wait until its goroutine is parked as well
+			spawnReq(k, st)
+			if !h.waitParked("chan receive", "chan send", "sync.Mutex.Lock", "semacquire") {
+				obs.Flags = append(obs.Flags, fmt.Sprintf("timeout-overlap@%d", k))
+			}
+			what := "other"
+			if h.countState("sync.Mutex.Lock", "semacquire") > 0 {
+				what = "blocked-on-lock"
+			} else if _, _, locked := rm.VerifTryReceivers(st.Image); locked {
+				what = "registered-during-broadcast"
+			}
+			obs.Overlap = append(obs.Overlap, what)
+			// 3. let the broadcast go on
+			if d := rmStepTimeout; !release(map[bool]time.Duration{true: d, false: 0}[stalled]) && stalled {
+				obs.Flags = append(obs.Flags, fmt.Sprintf("timeout-release@%d", k))
+			}
+			if _, to := h.waitFor(func() bool { return true }); to {
+				obs.Flags = append(obs.Flags, fmt.Sprintf("timeout@%d", k))
+			}
+			endStep(st.Image)
+		}
 		images := map[string]bool{}
 		for k, st := range sc.Steps {
 			images[st.Image] = true
@@ -305,6 +465,8 @@ func init() {
 				doReq(k, st)
 			case "done":
 				doDone(k, st)
+			case "overlap":
+				doOverlap(k, st)
 			default:
 				return nil, fmt.Errorf("unknown op %q", st.Op)
 			}
@@ -344,45 +506,93 @@ func init() {
 			}
 			obs.Pending = append(obs.Pending, p)
 		}
-		// aliasing: every returned package must show its own mutation only, every original none
+		// aliasing: every returned package must show its own mutation only, every original none,
+		// and no two of them may share a backing array
 		alias := map[[2]int]bool{}
+		type arr struct {
+			owner int // request step + 1, 0 = an original
+			p     *byte
+		}
+		var arrays []arr
 		for _, r := range h.reqs {
 			if !r.answered || r.pkg == nil {
 				continue
 			}
+			me := r.step + 1
 			own := fmt.Sprintf("mut-%d", r.step)
-			for key := range r.pkg.Files {
+			want := map[string]bool{own: true, "id": true}
+			for key := range pristineFiles() {
+				if key != "gone" {
+					want[key] = true
+				}
+			}
+			for key, b := range r.pkg.Files {
 				if strings.HasPrefix(key, "mut-") && key != own {
 					j, _ := strconv.Atoi(key[4:])
-					alias[[2]int{r.step + 1, j + 1}] = true
+					alias[[2]int{me, j + 1}] = true
+					continue
+				}
+				if !want[key] {
+					alias[[2]int{me, me}] = true
+					continue
+				}
+				if p := backing(b); p != nil {
+					arrays = append(arrays, arr{me, p})
+				}
+				if key == own || key == "id" {
+					continue
+				}
+				if !bytes.Equal(b, expectAfterMutate(key, r.step)) {
+					alias[[2]int{me, foreignByte(b, me)}] = true
+				} else if j := foreignByte(b, me); j != 0 {
+					alias[[2]int{me, j}] = true
 				}
 			}
-			if b := r.pkg.Files["data"]; len(b) != 4 || b[0] != byte(r.step+1) {
-				j := 0
-				if len(b) > 0 && b[0] != 'D' {
-					j = int(b[0])
+			for key := range want {
+				if _, ok := r.pkg.Files[key]; !ok {
+					alias[[2]int{me, me}] = true
 				}
-				alias[[2]int{r.step + 1, j}] = true
-			}
-			if _, ok := r.pkg.Files[own]; !ok {
-				alias[[2]int{r.step + 1, r.step + 1}] = true
 			}
 		}
 		for _, p := range h.all {
-			for key := range p.orig.Files {
+			prist := pristineFiles()
+			prist["id"] = []byte(fmt.Sprintf("%s#%d", p.image, p.n))
+			if len(p.orig.Files) != len(prist) {
+				alias[[2]int{0, 0}] = true
+			}
+			for key, b := range p.orig.Files {
 				if strings.HasPrefix(key, "mut-") {
 					j, _ := strconv.Atoi(key[4:])
 					alias[[2]int{0, j + 1}] = true
+					continue
+				}
+				if q := backing(b); q != nil {
+					arrays = append(arrays, arr{0, q})
+				}
+				w, ok := prist[key]
+				if !ok || !bytes.Equal(b, w) {
+					alias[[2]int{0, foreignByte(b, 0)}] = true
+					continue
+				}
+				// spare capacity of the original must be untouched
+				for _, x := range b[len(b):cap(b)] {
+					if x != 0 {
+						alias[[2]int{0, foreignByte(b, 0)}] = true
+						break
+					}
 				}
 			}
-			b := p.orig.Files["data"]
-			_, gone := p.orig.Files["gone"]
-			if string(b) != "Data" || !gone || len(p.orig.Files) != 3 {
-				j := 0
-				if len(b) > 0 && b[0] != 'D' {
-					j = int(b[0])
+		}
+		seen := map[*byte]int{}
+		for _, a := range arrays {
+			if o, dup := seen[a.p]; dup {
+				lo, hi := o, a.owner
+				if lo > hi {
+					lo, hi = hi, lo
 				}
-				alias[[2]int{0, j}] = true
+				alias[[2]int{lo, hi}] = true
+			} else {
+				seen[a.p] = a.owner
 			}
 		}
 		for a := range alias {
